@@ -3882,10 +3882,14 @@ def load_font(fontFile, options, checkChecksums=0, dontLoadGlyphNames=False, laz
         post = ttLib.getTableClass("post")
         saved = post.decode_format_2_0
         post.decode_format_2_0 = post.decode_format_3_0
-        f = font["post"]
-        if f.formatType == 2.0:
-            f.formatType = 3.0
-        post.decode_format_2_0 = saved
+        try:
+            f = font["post"]
+            if f.formatType == 2.0:
+                f.formatType = 3.0
+        finally:
+            # also when the font has no (readable) 'post' table: the patched
+            # class would otherwise affect every font loaded afterwards
+            post.decode_format_2_0 = saved
 
     return font
 
